@@ -777,7 +777,7 @@ int bufr_descriptor_set_ivalue ( BufrDescriptor *cb , int32_t ival )
    int rtrn;
    double  dmin, dmax;
    char    errmsg[256];
-   int32_t  min, max;
+   int64_t  min, max;   /* the range of a 32-bit element does not fit an int32_t */
 
    rtrn = -1;
 
@@ -806,8 +806,8 @@ int bufr_descriptor_set_ivalue ( BufrDescriptor *cb , int32_t ival )
 
    if (bufr_descriptor_get_range( cb, &dmin, &dmax ) > 0 )
       {
-      min = (int32_t) dmin;
-      max = (int32_t) dmax;
+      min = (int64_t) dmin;
+      max = (int64_t) dmax;
 /*
  * for descriptor 20011, it is valid to use missing=max+1 as value
  */
@@ -821,8 +821,8 @@ int bufr_descriptor_set_ivalue ( BufrDescriptor *cb , int32_t ival )
          rtrn = bufr_value_set_int32( cb->value, -1 );
          if ( ival != -1 )
             {
-            sprintf( errmsg, _("Warning: The value %d of descriptor %d is out of range [%d,%d]\n"), 
-                     ival, cb->descriptor, min, max );
+            sprintf( errmsg, _("Warning: The value %d of descriptor %d is out of range [%lld,%lld]\n"), 
+                     ival, cb->descriptor, (long long)min, (long long)max );
             bufr_print_debug( errmsg );
             }
          }
